@@ -7,8 +7,8 @@
 //! entry points `compile_any_manifest` (raw error) and `compile_any_manifest_with_pretty_error` (both diagnostic
 //! styles, each twice) under `catch_unwind`. Spaces:
 //!  (a) every token sequence of length <= N over a 34-token alphabet, joined by each of {SP, LF, CRLF, CR};
-//!  (b) every character string of length <= L over a 12-character alphabet;
-//!  (c) "error placement": error-producing snippets behind a preamble of 0..=12 lines, every line-ending style,
+//!  (b) every character string of length <= 4 over a 12-character alphabet (quick) / <= 5 over 16 characters (thorough);
+//!  (c) "error placement": error-producing snippets behind a preamble of 0..=12 lines (quick: 7 of them), every line-ending style,
 //!      ASCII / non-ASCII preamble lines, error at start / middle of a line, trailing lines, final newline or not;
 //!  (d) every single-point character mutation of the 3 smallest example manifests, and an error token injected at
 //!      the start of every line of every example manifest under every line-ending style;
@@ -349,9 +349,11 @@ struct PlacementCase {
 fn space_c_cases(thorough: bool) -> Vec<PlacementCase> {
     let mut out = vec![];
     let snippets = error_snippets();
-    let trailing_options: &[usize] = if thorough { &[0, 1, 3, 7] } else { &[0, 1, 7] };
+    let trailing_options: &[usize] = if thorough { &[0, 1, 3, 7] } else { &[0, 7] };
+    // quick: preamble lengths around the 5-line context window of the snippet renderer; thorough: all of 0..=12
+    let preambles: Vec<usize> = if thorough { (0..=12).collect() } else { vec![0, 1, 4, 5, 6, 7, 12] };
     for (name, snip) in &snippets {
-        for n in 0..=12usize {
+        for &n in &preambles {
             for style in 0..4 {
                 for (pi, pl) in PREAMBLE_LINES.iter().enumerate() {
                     for placement in 0..3 {
@@ -710,13 +712,13 @@ pub fn run(ctx: Ctx) -> ! {
 
     // (a)
     let a_len = ctx.pick(3, 4);
-    let a_trailing = ctx.pick(2, 3);
+    let a_trailing = ctx.pick(1, 3);
     let n_a = space_a(&ctx, a_len, a_trailing);
     cov.insert("a_token_sequences".into(), json!({"alphabet": TOKENS.len(), "max_len": a_len, "sequences": n_a, "separators": SEPS.len(), "with_trailing_separator_upto_len": a_trailing}));
     eprintln!("[C31] (a) done at {:.1}s", ctx.elapsed_s());
 
     // (b)
-    let (b_alpha, b_len): (&[char], u32) = if thorough { (&CHARS_THOROUGH, 5) } else { (&CHARS_QUICK, 5) };
+    let (b_alpha, b_len): (&[char], u32) = if thorough { (&CHARS_THOROUGH, 5) } else { (&CHARS_QUICK, 4) };
     let n_b = space_b(&ctx, b_alpha, b_len);
     cov.insert("b_char_strings".into(), json!({"alphabet": b_alpha.len(), "max_len": b_len, "strings": n_b}));
     eprintln!("[C31] (b) done at {:.1}s", ctx.elapsed_s());
@@ -726,7 +728,7 @@ pub fn run(ctx: Ctx) -> ! {
     par_for(&ctx, &c_cases, |c, l| {
         probe(&c.text, &format!("c:error-placement:{}", c.label), l, &net);
     });
-    cov.insert("c_error_placements".into(), json!({"snippets": error_snippets().len(), "preamble_lines": "0..=12", "eol_styles": EOL_NAMES, "cases": c_cases.len()}));
+    cov.insert("c_error_placements".into(), json!({"snippets": error_snippets().len(), "preamble_lines": if thorough { "0..=12" } else { "0,1,4,5,6,7,12" }, "eol_styles": EOL_NAMES, "cases": c_cases.len()}));
     ctx.sample(json!({"space": "c", "label": c_cases[c_cases.len() / 3].label, "text": c_cases[c_cases.len() / 3].text}));
     eprintln!("[C31] (c) done at {:.1}s", ctx.elapsed_s());
 
